@@ -227,6 +227,7 @@ def _cutoff_roundtrip(cx, N, units):
     H = cx.real_symmetric("H", N)
     cut = cx.real("cut", 0.0, 0.5)
     cx.assume(cut >= 0, "coupling cut-off >= 0")
+    cut_internal = cut
     if units:
         # the cut-off is given in the units of the surrounding context (the Hamiltonian's couplings are read in them)
         cut = qr.Manager().convert_energy_2_current_u(cut)
@@ -239,6 +240,18 @@ def _cutoff_roundtrip(cx, N, units):
             ham.remove_cutoff_coupling(cut)
         cx.assume_denominators_nonzero("sign = J/|J| only evaluated for |J| > cut >= 0")
         cx.prove_eq(how + "/split_is_exact", ham._data + ham.JR, H)
+        if how == "remove":
+            # which couplings are removed is decided by their physical size: |J| below the cut-off (both read in
+            # the same units) go to the remainder entirely, all others stay entirely
+            for i in range(N):
+                for j in range(i + 1, N):
+                    small = abs(H[i, j]) < abs(cut_internal)
+                    if small:
+                        cx.prove_eq("remove/small_coupling_removed[%d,%d]" % (i, j), [ham._data[i, j], ham.JR[i, j]],
+                                    [0, H[i, j]])
+                    else:
+                        cx.prove_eq("remove/large_coupling_kept[%d,%d]" % (i, j), [ham._data[i, j], ham.JR[i, j]],
+                                    [H[i, j], 0])
         cx.prove_eq(how + "/diagonal_untouched", numpy.diag(ham._data), numpy.diag(H))
         ham.recover_cutoff_coupling()
         cx.prove_eq(how + "/recovered", ham._data, H)
